@@ -79,10 +79,6 @@ fn recv_eof(closure: bool, with_md: bool, shape: u8) {
             || (codes >> 4) & 0xF == DeliveryCode::Complete as u64 && codes >> 8 == Condition::NoError as u64,
         None => false,
     };
-    if !complete {
-        assert!(!reported_complete, "missing data or metadata: no complete delivery is reported");
-        assert!(!(t.verif_delivery_code() == DeliveryCode::Complete && t.verif_condition() == Condition::NoError), "recorded outcome is not a clean complete delivery");
-    }
     assert!(t.verif_ack().is_none() && t.verif_naks().is_empty() && !t.verif_has_prompt(), "no ACK, NAK or keep-alive is ever armed");
     if !closure || !with_md {
         assert!(verif::recv_state(&t) == TransactionState::Terminated || t.verif_recv_state() == VRecvState::Cancelled, "without closure the receiver ends on EOF");
@@ -95,6 +91,12 @@ fn recv_eof(closure: bool, with_md: bool, shape: u8) {
             ),
             _ => assert!(false, "Finished armed"),
         }
+    }
+    // LAST: Kani's assert! cuts the path after a failing assertion, and this one fails on the pinned tree (known
+    // finding D14) - placed earlier it would hide every later obligation of this harness
+    if !complete {
+        assert!(!reported_complete, "missing data or metadata: no complete delivery is reported");
+        assert!(!(t.verif_delivery_code() == DeliveryCode::Complete && t.verif_condition() == Condition::NoError), "recorded outcome is not a clean complete delivery");
     }
     kani::cover!(complete && reported_complete, "clean delivery");
     kani::cover!(!complete, "incomplete at EOF");
